@@ -64,6 +64,7 @@ type ObligationResult struct {
 	KnownSat  int // failures attributed to a listed known finding
 	KnownUndecided int // solver unknown inside the region of a listed finding (not claimed there)
 	AbstractSat, ExactRefuted, AbstractOnly int
+	LongTries int
 	Trivial   int // assertion was a concrete `true`
 	Witnesses []*Witness
 	SolverMS  int64
@@ -146,6 +147,8 @@ type Engine struct {
 	intTerms    []*smt.Term // ideal mode: real-sorted terms known to be integer-valued
 	truncOf     map[*smt.Term]*smt.Term // ideal mode: truncation is a function (same argument, same result)
 	knownTries  map[string]int
+	autoHints   []*smt.Term // per path: rate-like inputs fixed to simple values (concrete-witness search only)
+	autoNames   map[string]bool
 	intVars     []*smt.Term // ideal mode: the real-sorted variables standing for integer inputs (nd.IntRange)
 	exactNext   bool
 	hints       []*smt.Term
@@ -222,6 +225,8 @@ func (e *Engine) beginPath() {
 	e.intTerms = nil
 	e.truncOf = map[*smt.Term]*smt.Term{}
 	e.intVars = nil
+	e.autoHints = nil
+	e.autoNames = map[string]bool{}
 	e.OverflowChecks = false
 	e.S.UFWindow = ufWindowDefault
 	e.obsKeys = nil
@@ -622,7 +627,8 @@ func (e *Engine) exactQuery(extra *smt.Term, to time.Duration) smt.Result {
 	// Each exact query runs in a fresh, non-incremental solver process: without
 	// push/pop z3 applies its full preprocessing and nonlinear tactics, which decides
 	// many queries the incremental core leaves unknown.
-	run := func(withHints bool) smt.Result {
+	run := func(mode int) smt.Result { // 0: no hints, 1: harness hints, 2: harness hints + automatic regime
+		withHints := mode >= 1
 		if e.SX != nil {
 			e.SX.Close()
 			e.SX = nil
@@ -649,6 +655,11 @@ func (e *Engine) exactQuery(extra *smt.Term, to time.Duration) smt.Result {
 				sx.Assert(h)
 			}
 		}
+		if mode == 2 {
+			for _, h := range e.autoHints {
+				sx.Assert(h)
+			}
+		}
 		r := sx.Check(to)
 		e.XStats.Queries++
 		e.XStats.Time += sx.Stats.Time
@@ -662,14 +673,20 @@ func (e *Engine) exactQuery(extra *smt.Term, to time.Duration) smt.Result {
 		}
 		return r
 	}
-	if len(e.hints) > 0 {
-		// first look for a model inside the regime suggested by the harness (nd.Hint):
-		// hints only ever narrow the search for a concrete counterexample
-		if run(true) == smt.Sat {
+	// first look for a model inside the regime suggested by the harness (nd.Hint) with the rate-like
+	// inputs fixed to simple values, then inside the harness regime alone: hints only ever narrow
+	// the search for a concrete counterexample, `unsat` under hints means nothing
+	if len(e.autoHints) > 0 {
+		if run(2) == smt.Sat {
 			return smt.Sat
 		}
 	}
-	return run(false)
+	if len(e.hints) > 0 {
+		if run(1) == smt.Sat {
+			return smt.Sat
+		}
+	}
+	return run(0)
 }
 
 // CrossCmds: additional solvers that re-decide a sample of the discharged obligation queries
@@ -776,8 +793,24 @@ func (e *Engine) Assert2(id string, cond *smt.Term, note string) {
 				r = smt.Sat
 				modelFrom = e.SX
 			default:
-				// exact solver could not decide: keep the abstract model as a candidate
-				// (it is reported only if it reproduces natively)
+				// exact solver could not decide within the short timeout. Outside known regions a
+				// candidate violation is rare (none on the unchanged tree), so it is worth a longer
+				// look: twice per obligation with 6x the timeout.
+				if r == smt.Sat && e.matchKnown(id) == nil && o.LongTries < 2 {
+					o.LongTries++
+					rx = e.exactQuery(neg, 6*e.Lim.ExactTO)
+					debugf("exact confirm (long) %s: %v", id, rx)
+					if rx == smt.Unsat {
+						r = smt.Unsat
+						o.ExactRefuted++
+						break
+					}
+					if rx == smt.Sat {
+						modelFrom = e.SX
+						break
+					}
+				}
+				// keep the abstract model as a candidate (it is reported only if it reproduces natively)
 				if r == smt.Sat {
 					o.AbstractOnly++
 				}
@@ -860,6 +893,15 @@ func (e *Engine) Observe(key string, t *smt.Term) {
 		e.obsKeys = append(e.obsKeys, key)
 	}
 	e.obsTerms[key] = t
+}
+
+// AutoHint records the automatic regime of a rate-like input (once per variable and path).
+func (e *Engine) AutoHint(name string, t *smt.Term) {
+	if e.autoNames[name] {
+		return
+	}
+	e.autoNames[name] = true
+	e.autoHints = append(e.autoHints, t)
 }
 
 // Hint: a simplifying regime used only while searching a concrete model for a counterexample.
